@@ -233,3 +233,51 @@ def obligations(tier):
         for size in (1, 2, 3):
             for pos in range(size):
                 yield Obligation('C19.placeholder[%s,batch=%d,failed at %d]' % (lang, size, pos), 'h_placeholder', dict(lang=lang, pos=pos, size=size), cost=2)
+
+
+def ground_stage():
+    """what the real parser returns (native build of parsing.h behind the translated parsing.pyx) for sentences that parse, that have a
+    spanning analysis but no allowed root, that have no analysis at all, that are too long or run out of steps - rendered by every
+    format: the statement's "whatever the parser can return" taken from the parser itself rather than from its description"""
+    from lib import native, search as S
+    bn = native.Build()
+    bad, info = [], dict(native_batches=0, formats={})
+    try:
+        g = S.G8()          # (A B) -> X is not a root; X has a unary rule into the root set, which may not apply at the root of a 2-word sentence
+        # labels from the real grammars' vocabularies (the printers key tables on them)
+        LAB = dict(en=dict(binary='fa|>', unary='tr|<un>'), ja=dict(binary='ba|<', unary='ADNext|ADNext'))
+        cfg = dict(unary_penalty=0.1, beta=0.5, use_beta=False, pruning_size=2, nbest=1, max_step=100000)
+        ok1 = dict(tag=[[0, -9]], dep=[[0, -1]])                                   # one word A: unary v into the root set
+        ok2 = dict(tag=[[0, -9], [0, -9]], dep=[[0, -1, -1], [-1, 0, -1]])          # A A -> 4 (root)
+        span_no_root = dict(tag=[[0, -9], [-9, 0]], dep=[[0, -1, -1], [-1, 0, -1]])  # A B -> X only: spanning analysis, no root
+        nothing = dict(tag=[[-9, 0], [-9, 0]], dep=[[0, -1, -1], [-1, 0, -1]])       # B B: no rule at all
+        long3 = dict(tag=[[0, -9]] * 3, dep=[[0, -1, -1, -1]] * 3)
+        jobs = []
+        for lang in ('en', 'ja'):
+            fm = list(FORMATS[lang])
+            for sents, extra in (([ok2, span_no_root, ok1], {}), ([span_no_root], {}), ([nothing, ok2], {}), ([ok2, long3], dict(max_length=2)), ([ok2, ok2], dict(max_step=1)),
+                                 ([ok2, span_no_root], dict(nbest=2))):
+                base = dict(ncats=g['ncats'], T=g['T'], roots=g['roots'], binary=[(x, y, c, h, LAB[lang]['binary']) for x, y, c, h, _ in g['binary']],
+                            unary=[(x, c, LAB[lang]['unary']) for x, c, _ in g['unary']])
+                jobs.append(dict(base, sentences=sents, config=dict(cfg, **extra), render=fm, lang=lang))
+        res = bn.run(jobs, timeout=600)
+        info['native_batches'] = len(jobs)
+        for job, r in zip(jobs, res):
+            if r.get('error'):
+                bad.append(('native.run-raises', dict(error=r['error'][:300], lang=job['lang'])))
+                continue
+            for f, e in sorted(r.get('render_errors', {}).items()):
+                info['formats'][f] = info['formats'].get(f, 0) + 1
+                bad.append(('native.render-raises.%s' % f, dict(lang=job['lang'], error=e, result_list_lengths=r.get('result_list_lengths'), sentences=len(job['sentences']), config=job['config'])))
+            if any(n == 0 for n in r.get('result_list_lengths', [])):
+                bad.append(('native.empty-result-list', dict(lang=job['lang'], result_list_lengths=r.get('result_list_lengths'))))
+    finally:
+        bn.close()
+    # one finding per (format, kind) is enough
+    seen, out = set(), []
+    for k, v in bad:
+        if (k, v.get('lang')) not in seen:
+            seen.add((k, v.get('lang')))
+            out.append((k, v))
+    return dict(native_render=info), out
+
